@@ -66,7 +66,7 @@ def multiResult (n : Nat) (results : List (Nat × Val)) : Val :=
 
 def sortedNat := Kernel.sortNat
 
-def showList (l : List Nat) : String := "[" ++ ", ".intercalate (l.map toString) ++ "]"
+def showList (l : List Nat) : String := "[" ++ ",".intercalate (l.map toString) ++ "]"
 
 /-- body of the ok-reply for a waiting request (TransformableFuture transform functions) -/
 def replyBody (xform : String) (v : Val) : String :=
@@ -113,31 +113,26 @@ def stopController : M Unit := do
   if !a.pubClosed then emit (.close "evpub")
   modA fun a => { a with ctlClosed := true, pubClosed := true }
 
-/-- callbacks queued with `loop.add_callback` run before any later future callback -/
-def flushDeferred : M Unit := do
-  let a ← getA
-  if a.closePending then
-    modA fun a => { a with closePending := false }
-    stopController
+def enqueue (r : Ready) : M Unit := modS fun s => { s with ready := s.ready ++ [r] }
 
-/-- done-callbacks of a top-level future, in registration order -/
+/-- one done-callback of a top-level future -/
 def runTopCb (v : Val) : TopCb → M Unit
   | .release => modA fun a => { a with slot := none }
-  | .reply cid id cast _cmd send xform => do
-    flushDeferred
+  | .reply cid id cast _cmd send xform =>
     match v with
     | .exc _ => if send then sendReply cid id cast "error" "6" "-" else pure ()   -- "server error", BAD_MSG_DATA_ERROR
     | _ => if send then sendReply cid id cast "ok" "-" (replyBody xform v) else pure ()
-  | .watch => do
-    flushDeferred
-    match v with
+  | .watch => match v with
     | .exc e => emit (.raised (match e with
         | .message => "MessageError" | .conflict => "ConflictError" | .oserror => "OSError"
         | .noSuchProcess => "NoSuchProcess" | .other n => n))
     | _ => pure ()
-  | .stopCtl => stopController
+  | .popProc wuid pid => modS fun s =>
+      { s with ws := s.ws.map fun w => if w.uid = wuid then { w with pids := w.pids.filter (· ≠ pid) } else w }
 
-/-- hand a coroutine result to whoever waits for it -/
+/-- hand a coroutine result to whoever waits for it.  A waiter that is still on the Python
+    stack (not yet `armed`) continues synchronously; otherwise the continuation is a callback
+    on the event loop's ready queue. -/
 def deliver (rec : Rec) (w : Waiter) (v : Val) : M Unit := do
   match w with
   | .none => pure ()
@@ -147,7 +142,10 @@ def deliver (rec : Rec) (w : Waiter) (v : Val) : M Unit := do
     | none => pure ()
     | some t =>
       modS fun s => { s with tops := s.tops.filter (·.tid ≠ tid), doneVals := (tid, v) :: s.doneVals }
-      for cb in t.cbs do runTopCb v cb
+      for cb in t.cbs do
+        match cb, t.armed with
+        | .release, false => runTopCb v .release       -- util.synchronized: future already done, released in place
+        | cb, _ => enqueue (.topCb cb v)
   | .frame fid slot =>
     let s ← getS
     match s.frames.find? (·.fid = fid) with
@@ -155,25 +153,53 @@ def deliver (rec : Rec) (w : Waiter) (v : Val) : M Unit := do
     | some f =>
       match f.k with
       | .multi n results =>
-        let results := results ++ [(slot, v)]
-        if results.length ≥ n then
-          modS fun s => { s with frames := s.frames.filter (·.fid ≠ fid) }
-          rec (.resume .pass (multiResult n results) f.parent)
+        if f.armed then enqueue (.resume (.multiSlot fid slot) v .none)
         else
-          modS fun s => { s with frames := s.frames.map fun g =>
-            if g.fid = fid then { g with k := .multi n results } else g }
+          -- still building the list of children: just record
+          let results := results ++ [(slot, v)]
+          if results.length ≥ n then
+            modS fun s => { s with frames := s.frames.filter (·.fid ≠ fid) }
+            rec (.resume .pass (multiResult n results) f.parent)
+          else
+            modS fun s => { s with frames := s.frames.map fun g =>
+              if g.fid = fid then { g with k := .multi n results } else g }
       | k =>
         modS fun s => { s with frames := s.frames.filter (·.fid ≠ fid) }
-        rec (.resume k v f.parent)
+        if f.armed then enqueue (.resume k v f.parent) else rec (.resume k v f.parent)
+
+/-- the per-child callback of an armed gen.multi -/
+def multiCollect (rec : Rec) (fid slot : Nat) (v : Val) : M Unit := do
+  let s ← getS
+  match s.frames.find? (·.fid = fid) with
+  | none => pure ()
+  | some f =>
+    match f.k with
+    | .multi n results =>
+      let results := results ++ [(slot, v)]
+      if results.length ≥ n then
+        modS fun s => { s with frames := s.frames.filter (·.fid ≠ fid) }
+        rec (.resume .pass (multiResult n results) f.parent)
+      else
+        modS fun s => { s with frames := s.frames.map fun g =>
+          if g.fid = fid then { g with k := .multi n results } else g }
+    | _ => pure ()
+
+def armFrame (fid : Nat) : M Unit :=
+  modS fun s => { s with frames := s.frames.map fun g => if g.fid = fid then { g with armed := true } else g }
+
+def armTop (tid : Nat) : M Unit :=
+  modS fun s => { s with tops := s.tops.map fun t => if t.tid = tid then { t with armed := true } else t }
 
 /-- `yield child` -/
 def await (rec : Rec) (c : Call) (k : Kont) (parent : Waiter) : M Unit := do
   let fid ← newFrame k parent
   rec (.call c (.frame fid 0))
+  armFrame fid
 
 /-- `yield tornado_sleep(ms)` -/
 def awaitSleep (ms : Nat) (k : Kont) (parent : Waiter) : M Unit := do
   let fid ← newFrame k parent
+  armFrame fid
   addSleeper ms (.frame fid 0)
 
 /-- `yield [c1, …, cn]` / `gen.multi`: children are started eagerly, in order -/
@@ -185,5 +211,7 @@ def awaitMulti (rec : Rec) (cs : List Call) (k : Kont) (parent : Waiter) : M Uni
   for c in cs do
     rec (.call c (.frame fm i))
     i := i + 1
+  armFrame fm
+  armFrame fo
 
 end Circus.Core
